@@ -455,6 +455,7 @@ func lexInsideAction(l *lexer) stateFn {
 			l.emit(itemAnd)
 		} else {
 			l.backup()
+			l.emit(itemChar) // a lone '&' is not an operator; let the parser reject it
 		}
 	case r == '<':
 		if l.next() == '=' {
